@@ -130,7 +130,7 @@ def cycle(t: E.Tally, w, gwy, eav: bool, include_expired: bool, rep: dict, where
                 code = (s1[1][lost[0]] if lost else s2[1][new[0]] if new else s1[1][chg[0]]).split()[-3 if "#" not in (s1[1][lost[0]] if lost else "x") else -3]
                 t.bad(f"C16:packets-not-a-fixpoint:{'with' if with_schema else 'no'}-schema:{'lost' if lost else 'gained' if new else 'changed'}{_frag(s1[1], s2[1], gwy if eav else None, g2)}", f"{where} include_expired={include_expired}: {len(s1[1])} packets saved, fresh gateway reports {len(s2[1])}: {what}", rep)
             if not eav and with_schema and json.dumps(s2[0], sort_keys=True) != json.dumps(s1[0], sort_keys=True):
-                t.bad("C16:schema-not-a-fixpoint:with-schema", f"{where}: schema of the fresh gateway differs: {_sdiff(s1[0], s2[0])}", rep)
+                t.bad("C16:schema-not-a-fixpoint:with-schema" + _stag(s1[0], s2[0]), f"{where}: schema of the fresh gateway differs: {_sdiff(s1[0], s2[0])}", rep)
             # restoring the same snapshot again changes nothing
             r = w2.run(g2._restore_cached_packets(dict(s1[1])), horizon=30)
             w2.loop.quiesce(w2.loop.time() + 2)
@@ -164,9 +164,26 @@ def cycle(t: E.Tally, w, gwy, eav: bool, include_expired: bool, rep: dict, where
     try:
         s4 = gwy.get_state(include_expired=include_expired)
         if r[0] != "ok" or not same(s1[1], s4[1]) or (not eav and json.dumps(s4[0], sort_keys=True) != json.dumps(s1[0], sort_keys=True)):
-            t.bad("C16:restore-into-same-gateway-changes-state" + _frag(s1[1], s4[1]), f"{where}: {r[0]}; packets {len(s1[1])}->{len(s4[1])}; schema {_sdiff(s1[0], s4[0]) if not eav else '-'}", rep)
+            t.bad("C16:restore-into-same-gateway-changes-state" + (_frag(s1[1], s4[1]) or ("" if eav or not same(s1[1], s4[1]) else _stag(s1[0], s4[0]))), f"{where}: {r[0]}; packets {len(s1[1])}->{len(s4[1])}; schema {_sdiff(s1[0], s4[0]) if not eav else '-'}", rep)
     except Exception as e:  # noqa: BLE001
         t.bad(f"C16:get_state-raises:{type(e).__name__}", f"{where} (after restoring into the same gateway): {e}", rep)
+
+
+def _stag(a, b) -> str:
+    """':zone-name-gained' when the ONLY difference between two schemas is zone names (_name) that were unknown and are now known:
+    a zone's RP|0004 heard before the zone itself was known is kept by the controller but not shown by the zone; once the zone
+    is known (from the saved schema) a restore of the same packets delivers it."""
+    diffs = []
+
+    def walk(x, y, p):
+        if isinstance(x, dict) and isinstance(y, dict):
+            for k in sorted(set(x) | set(y), key=str):
+                walk(x.get(k), y.get(k), p + [k])
+        elif x != y:
+            diffs.append((p, x, y))
+
+    walk(a, b, [])
+    return ":zone-name-gained" if diffs and all(p[-1] == "_name" and x is None and y is not None for p, x, y in diffs) else ""
 
 
 def _sdiff(a, b, p="") -> str:
@@ -227,6 +244,14 @@ def shard(arg) -> E.Tally:
         hist = GC.retime(lines[:mid] + seg + lines[mid:])
         run_history(t, hist, eav, {mid + len(seg), len(hist) - 1}, {"log": rel, "eav": eav, "edit": "writes"}, f"{rel}[+{len(extra)} RQ/W frames]")
         t.by["rq_w_frames"] += len(extra)
+    elif kind == "first":
+        # one packet heard before everything else (e.g. a zone's name or setpoint before the packets that make the zone known)
+        for j in range(1, n):
+            if j % nsh != i:
+                continue
+            hist = GC.retime([(lines[0][0], lines[j][1], lines[j][2])] + lines[:j] + lines[j + 1 :])
+            run_history(t, hist, eav, {min(len(hist) - 1, j + 1), len(hist) - 1}, {"log": rel, "eav": eav, "edit": f"first@{j}"}, f"{rel}[first@{j}]")
+            t.by["heard_first"] += 1
     elif kind == "late":
         # one packet overtaken: it is delivered after the one stamped after it, each keeping its own timestamp (timestamps given by
         # a remote MQTT gateway, or a curated log: arrival order is not timestamp order)
@@ -284,6 +309,8 @@ def plan(quick: bool):
             for eav in (False, True):
                 for i in range(nsh):
                     jobs.append(("late", rel, eav, i, nsh, quick))
+                    if n <= (120 if quick else 300):
+                        jobs.append(("first", rel, eav, i, nsh, quick))
     return jobs
 
 
@@ -310,6 +337,10 @@ def replay(rep: dict):
         run_history(t, lines, rep["eav"], set(rep["at"]), rep, rep["log"])
     elif rep["edit"] == "writes":
         t.merge(shard(("writes", rep["log"], rep["eav"], 0, 1, True)))
+    elif rep["edit"].startswith("first@"):
+        j = int(rep["edit"][6:])
+        hist = GC.retime([(lines[0][0], lines[j][1], lines[j][2])] + lines[:j] + lines[j + 1 :])
+        run_history(t, hist, rep["eav"], {min(len(hist) - 1, j + 1), len(hist) - 1}, rep, f"{rep['log']}[first@{j}]")
     elif rep["edit"].startswith("late@"):
         j, k = (int(x) for x in rep["edit"][5:].split(">"))
         hist = lines[:j] + lines[j + 1 : k + 1] + [lines[j]] + lines[k + 1 :]
